@@ -3,7 +3,7 @@
    tensors; update rejects unsorted modes, replaces the weights for mode -1, is the identity for no modes. *)
 From Coq Require Import List ZArith Arith Bool Lia.
 From PV Require Import Base.Index Base.Perm Np.NpZ Np.NpZ2 Np.NpZ3 Np.NpZ3c Np.NpZ3d Np.NpZ3e Np.NpZ4 Proofs.NpZProofs Model.Repr
-  Model.C08Kruskal Model.W4Ktensor Model.W4KtensorVec Proofs.W4Loops Proofs.W4Slices Proofs.W4KtensorVec Gen.GenKtensor4.
+  Model.C08Kruskal Model.W4Ktensor Model.W4KtensorVec Proofs.W4Loops Proofs.W4Slices Proofs.W3Laws Proofs.W4KtensorVec Gen.GenKtensor4.
 Import ListNotations.
 Local Open Scope Z_scope.
 
@@ -113,4 +113,105 @@ Proof.
   { unfold np_reshape2_ok. apply andb_true_intro. split; [apply andb_true_intro; split; apply Z.leb_le; lia|].
     apply Z.eqb_eq. unfold zlen in *. rewrite firstn_length. nia. }
   rewrite Ok_. cbn [bind fst]. unfold kt_set_factor. now rewrite w4_np_set_nat.
+Qed.
+
+(* ---- two-pass update (/repo b9311d6): the validation pass decides alone (proof by w5-C19, Proofs/C19W5K.v, ported here so that
+   C08 can use it without importing C19's models) ---- *)
+(* two records with the same dimensions: as many weights, the same row counts factor by factor *)
+Definition w4_same_dims (a b : ktz) : Prop :=
+  zlen (kt_weights a) = zlen (kt_weights b) /\ map np_nrows (kt_factors a) = map np_nrows (kt_factors b).
+
+Lemma w4_same_dims_nfactors a b : w4_same_dims a b -> zlen (kt_factors a) = zlen (kt_factors b).
+Proof. intros [_ H]. apply (f_equal (@length Z)) in H. rewrite !map_length in H. unfold zlen. lia. Qed.
+
+Lemma w4_same_dims_nrows a b k : w4_same_dims a b -> np_nrows (znth [] (kt_factors a) k) = np_nrows (znth [] (kt_factors b) k).
+Proof.
+  intros [_ H]. rewrite <- !(znth_map0 np_nrows [] _ k eq_refl). now rewrite H.
+Qed.
+
+Lemma gen_update_needed_mono (k : ktz) modes a n : H_needed k modes a = Ok n -> a <= n.
+Proof.
+  revert a. induction modes as [|m ms IH]; intros a; cbn [H_needed]; [intros H; inversion H; lia|].
+  unfold H_need_step. pose proof (zlen_nonneg (kt_weights k)) as HR.
+  destruct (m =? -1); cbn [bind]; [intros H; apply IH in H; lia|].
+  destruct ((0 <=? m) && (m <? zlen (kt_factors k))); cbn [bind]; [|discriminate].
+  intros H. apply IH in H. pose proof (zlen_nonneg (znth [] (kt_factors k) m)) as Hm. unfold np_nrows in *. nia.
+Qed.
+
+Lemma w4_map_upd_same {A B} (f : A -> B) (d : A) : forall l n x, f x = f (nth n l d) -> map f (upd l n x) = map f l.
+Proof.
+  induction l as [|a l IH]; intros [|n] x H; cbn in *; try reflexivity; [now rewrite H|f_equal; now apply IH].
+Qed.
+
+Lemma w4_chunk_len (data : vec) (a b : Z) : 0 <= a <= b -> b <= zlen data -> zlen (H_chunk data a b) = b - a.
+Proof.
+  intros H1 H2. unfold H_chunk. rewrite py_slice_in by assumption. unfold zlen in *.
+  rewrite firstn_length, skipn_length. lia.
+Qed.
+
+Lemma w4_nrows_reshape2 o v m R : 0 <= m -> np_nrows (np_reshape2 o v m R) = m.
+Proof. intros H. unfold np_nrows, np_reshape2, zlen. rewrite map_length. fold (zlen (np_arange 0 m)). now apply zlen_arange. Qed.
+
+(* pass 2 cannot raise once pass 1 has accepted the rest of the request and the data vector is long enough *)
+Lemma gen_update_loop_total (data : vec) (k0 : ktz) : forall modes s loc n,
+  w4_same_dims s k0 -> 0 <= loc -> H_needed k0 modes loc = Ok n -> n <= zlen data ->
+  exists st, H_update_loop data modes (s, loc) = Ok st.
+Proof.
+  induction modes as [|m ms IH]; intros s loc n Hs Hloc Hn Hlen; cbn [H_update_loop]; [eexists; reflexivity|].
+  cbn [H_needed] in Hn. unfold H_need_step in Hn. unfold H_update_step. cbn [fst snd].
+  pose proof (zlen_nonneg (kt_weights k0)) as HR. destruct Hs as [HsW HsF]. pose proof (conj HsW HsF : w4_same_dims s k0) as Hs.
+  destruct (m =? -1); cbn [bind] in Hn.
+  - pose proof (gen_update_needed_mono _ _ _ _ Hn) as Hmono. rewrite HsW.
+    replace (zlen data <? loc + zlen (kt_weights k0)) with false by (symmetry; apply Z.ltb_ge; lia). cbn [bind].
+    apply (IH _ _ n); try assumption; try lia.
+    split; [|exact HsF]. unfold kt_set_weights. cbn [kt_weights]. rewrite w4_chunk_len by lia. lia.
+  - destruct ((0 <=? m) && (m <? zlen (kt_factors k0))) eqn:Hm; cbn [bind] in Hn; [|discriminate].
+    apply andb_true_iff in Hm as [Hm0 Hm1]. apply Z.leb_le in Hm0. apply Z.ltb_lt in Hm1.
+    pose proof (gen_update_needed_mono _ _ _ _ Hn) as Hmono.
+    rewrite (w4_same_dims_nfactors _ _ Hs). replace (m <? zlen (kt_factors k0)) with true by (symmetry; apply Z.ltb_lt; lia).
+    replace (idx_ok (kt_factors s) m) with true
+      by (symmetry; unfold idx_ok; rewrite (w4_same_dims_nfactors _ _ Hs); apply andb_true_iff; split; [apply Z.leb_le|apply Z.ltb_lt]; lia).
+    rewrite (w4_same_dims_nrows _ _ m Hs), HsW.
+    set (rows := np_nrows (znth [] (kt_factors k0) m)) in *. set (R := zlen (kt_weights k0)) in *.
+    assert (Hrows : 0 <= rows) by (unfold rows, np_nrows; apply zlen_nonneg).
+    assert (Hprod : 0 <= rows * R) by nia.
+    replace (zlen data <? loc + rows * R) with false by (symmetry; apply Z.ltb_ge; lia).
+    replace (np_reshape2_ok (H_chunk data loc (loc + rows * R)) rows R) with true.
+    2:{ symmetry. unfold np_reshape2_ok. rewrite w4_chunk_len by lia. apply andb_true_iff. split; [apply andb_true_iff; split; apply Z.leb_le; lia|apply Z.eqb_eq; lia]. }
+    cbn [bind]. apply (IH _ _ n); try assumption; try lia.
+    split; [exact HsW|]. unfold kt_set_factor. cbn [kt_factors]. rewrite <- HsF.
+    rewrite np_set_nonneg by lia. apply (w4_map_upd_same np_nrows []).
+    rewrite w4_nrows_reshape2 by assumption. unfold rows. rewrite <- (w4_same_dims_nrows _ _ m Hs). now rewrite znth_nonneg' by lia.
+Qed.
+
+Theorem gen_update_pass2_total (k : ktz) (modes data : vec) (n : Z) :
+  H_needed k modes 0 = Ok n -> n <= zlen data -> exists st, H_update_loop data modes (k, 0) = Ok st.
+Proof. intros H1 H2. apply (gen_update_loop_total data k modes k 0 n); try assumption; [split; reflexivity|lia]. Qed.
+
+(* a rejected request leaves the receiver as it was: in the functional model the receiver is the argument `k`, a rejected call
+   returns Err and no record at all — the in-place reading is: every assignment of the generated text happens in pass 2, and pass 2
+   is entered only by requests that are answered *)
+Theorem gen_update_rejected_before_store (k : ktz) (modes data : vec) :
+  ktensor_update k modes data = Err ->
+  asc modes = false \/ H_needed k modes 0 = Err \/ exists n, H_needed k modes 0 = Ok n /\ zlen data < n.
+Proof.
+  rewrite update_bridge. unfold H_update. destruct (asc modes); [|now left]. right.
+  destruct (H_needed k modes 0) as [n|] eqn:Hn; [|now left]. right. exists n. split; [reflexivity|].
+  cbn [bind] in H. destruct (Z.ltb_spec (zlen data) n) as [Hlt|Hge]; [assumption|].
+  destruct (gen_update_pass2_total k modes data n Hn Hge) as [st Hst]. rewrite Hst in H. discriminate.
+Qed.
+
+
+(* the generated method answers exactly when: modes strictly ascending, every mode in {-1} u [0, ndims), data long enough *)
+Theorem gen_update_ok_iff (self : ktz) (modes data : vec) :
+  (exists t, ktensor_update self modes data = Ok t) <->
+  asc modes = true /\ exists n, H_needed self modes 0 = Ok n /\ n <= zlen data.
+Proof.
+  rewrite update_bridge. unfold H_update. split.
+  - intros [t E]. destruct (asc modes); [|discriminate]. split; [reflexivity|].
+    destruct (H_needed self modes 0) as [n|]; [|discriminate]. exists n. split; [reflexivity|]. cbn [bind] in E.
+    destruct (Z.ltb_spec (zlen data) n); [discriminate|assumption].
+  - intros (Ha & n & Hn & Hle). rewrite Ha, Hn. cbn [bind].
+    replace (zlen data <? n) with false by (symmetry; apply Z.ltb_ge; exact Hle).
+    destruct (gen_update_pass2_total self modes data n Hn Hle) as [st Hst]. rewrite Hst. eexists. reflexivity.
 Qed.
